@@ -643,6 +643,8 @@ pub struct Answers {
     pub earliest: Result<Option<M>, String>,
     pub overlapping: Option<Result<Vec<M>, String>>,
     pub overlapping_steps: Option<Result<Vec<M>, String>>,
+    /// AhoCorasick::is_match (top-level searchers only)
+    pub is_match: Option<Result<bool, String>>,
 }
 
 impl Answers {
@@ -658,6 +660,8 @@ impl Answers {
             "overlapping_iter"
         } else if self.overlapping_steps != o.overlapping_steps {
             "overlapping_step"
+        } else if self.is_match != o.is_match {
+            "is_match"
         } else {
             "none"
         }
@@ -681,6 +685,7 @@ impl Answers {
             earliest: self.earliest.clone().map(|o| o.as_ref().map(sh)),
             overlapping: self.overlapping.clone().map(|r| r.map(|v| shv(&v))),
             overlapping_steps: self.overlapping_steps.clone().map(|r| r.map(|v| shv(&v))),
+            is_match: self.is_match.clone(),
         }
     }
     pub fn all_matches(&self) -> Vec<M> {
@@ -736,7 +741,11 @@ pub fn answers(s: &S, kind: Kind, hay: &[u8], span: (usize, usize), anchored: bo
     } else {
         (None, None)
     };
-    Answers { find, iter, earliest, overlapping, overlapping_steps }
+    let is_match = match s {
+        S::Top(ac) => Some(guard(|| ac.is_match(inp())).map_err(|p| format!("panic: {}", p))),
+        _ => None,
+    };
+    Answers { find, iter, earliest, overlapping, overlapping_steps, is_match }
 }
 
 fn e2e_cfgs(rng: &mut Rng, kind: Kind, ci: bool, pre: bool, anchored: bool) -> Vec<Cfg> {
@@ -793,7 +802,12 @@ pub fn c04_e2e_one(
         let base = answers(&built[0].1, kind, hay, *span, anchored);
         let nontrivial = base.find.as_ref().map_or(false, |m| m.is_some());
         for (c, s) in &built[1..] {
-            let a = answers(s, kind, hay, *span, anchored);
+            let mut a = answers(s, kind, hay, *span, anchored);
+            // is_match exists on top-level searchers only; for low-level
+            // types compare it with find().is_some() of the same searcher
+            if a.is_match.is_none() {
+                a.is_match = base.is_match.clone().map(|_| a.find.clone().map(|o| o.is_some()));
+            }
             rep.eval();
             rep.tally(&format!("e2e_compared_{}", c.imp.name()));
             if nontrivial {
